@@ -11,6 +11,7 @@
 import GunYu.Proofs.SenderRun
 import GunYu.Proofs.TargetSeq
 import GunYu.Proofs.Parser
+import GunYu.Proofs.EndToEnd
 
 namespace GunYu.Props.C01
 open GunYu GunYu.Sender GunYu.Target
@@ -239,6 +240,82 @@ theorem parser_keeps_order (c : PCfg) (s : PState) (raws : List Raw) :
     List.Sublist ((parseAll c s raws).map (·.offset)) (raws.map (·.off)) :=
   parseAll_offsets_sublist c s raws
 
+/-! ### End to end: refinement to the one-pass specification `specStream` -/
+
+/-- the items of a schedule, in order -/
+def itemsOf : List Ev → List Item
+  | [] => []
+  | .item it :: rest => it :: itemsOf rest
+  | _ :: rest => itemsOf rest
+
+theorem plainItems_eq_itemCmds (evs : List Ev) : plainItems evs = itemCmds (itemsOf evs) := by
+  induction evs with
+  | nil => rfl
+  | cons ev rest ih =>
+    cases ev with
+    | item it =>
+      simp only [plainItems, itemsOf, itemCmds, List.filterMap_cons, isBracketOrPing,
+        itemCmds.isBracketOrPingB] at ih ⊢
+      by_cases hb : (it.cmd == bPing || it.cmd == bMulti || it.cmd == bExec) = true
+      · simp only [hb, ↓reduceIte, List.nil_append]; exact ih
+      · simp only [hb, Bool.false_eq_true, ↓reduceIte, List.singleton_append]; rw [ih]
+    | batchTick => simpa [plainItems, itemsOf] using ih
+    | keepaliveTick => simpa [plainItems, itemsOf] using ih
+    | cpTick => simpa [plainItems, itemsOf] using ih
+    | done => simpa [plainItems, itemsOf] using ih
+
+theorem fwd_append_done (t : Txn) (evs : List Ev) (hnd : NoDone evs) :
+    fwd t (evs ++ [.done]) = fwd t evs := by
+  induction evs generalizing t with
+  | nil => simp [fwd, fwd1]
+  | cons ev rest ih =>
+    have hne : ev ≠ .done := hnd ev (List.mem_cons_self ..)
+    have hrest : NoDone rest := fun e he => hnd e (List.mem_cons_of_mem _ he)
+    simp only [List.cons_append, fwd, hne, ↓reduceIte]
+    rw [ih _ hrest]
+
+/-- **End to end, ticker mode, uninterrupted run.** Take any decoded source
+    stream `raws` (select arguments ≥ 0, mapped DBs real), any filter/mapping
+    configuration `pc`, any batching configuration `sc` in ticker mode, and ANY
+    schedule `evs` (arbitrary interleaving of batch / keep-alive / checkpoint
+    ticks) whose items are what the parser emits for `raws`, closed by `done`.
+    Then what the target has executed afterwards is EXACTLY the specification
+    `specStream`: the source stream with only the documented removals, in order,
+    nothing dropped, duplicated, altered or invented, each command in the DB
+    designated by the latest database switch after mapping. -/
+theorem end_to_end_ticker (pc : PCfg) (sc : SCfg) (hsc : sc.txnMode = false)
+    (raws : List Raw) (evs : List Ev)
+    (hitems : itemsOf evs = parseAll pc {} raws)
+    (hnd : NoDone evs) (hnn : NoNested (inT .no) evs)
+    (hsel : ∀ r ∈ raws, r.cmd = bSelect → ∀ a n, r.args = [a] → atoi? a = some n → 0 ≤ n)
+    (hmap : ∀ n : Int, 0 ≤ n → mapDb pc n ≠ -1)
+    (t : TState) (hq : t.queued = none) :
+    (applyLog t (run sc initS (evs ++ [.done])).2.flatten).applied =
+      t.applied ++ specStream pc false t.cur raws := by
+  have h1 := (executed_in_order sc (evs ++ [.done]) t hq).2
+  rw [h1, done_flushes_all sc hsc evs hnd, fwd_append_done _ _ hnd,
+    fwd_eq_plainItems .no evs hnd hnn, plainItems_eq_itemCmds, hitems,
+    parser_refines_spec pc raws {} t.cur (Or.inr rfl) hsel hmap]
+
+/-- **End to end, any mode, any moment.** In every mode and after every
+    schedule (not necessarily finished) what the target has executed is a PREFIX
+    of the specification: nothing beyond it, nothing out of order, every command
+    in its designated DB; the rest is still queued or not yet received. -/
+theorem executed_prefix_of_spec (pc : PCfg) (sc : SCfg) (raws : List Raw) (evs : List Ev)
+    (hitems : itemsOf evs = parseAll pc {} raws)
+    (hnd : NoDone evs) (hnn : NoNested (inT .no) evs)
+    (hsel : ∀ r ∈ raws, r.cmd = bSelect → ∀ a n, r.args = [a] → atoi? a = some n → 0 ≤ n)
+    (hmap : ∀ n : Int, 0 ≤ n → mapDb pc n ≠ -1)
+    (t : TState) (hq : t.queued = none) :
+    ∃ rest, t.applied ++ specStream pc false t.cur raws =
+      (applyLog t (run sc initS evs).2.flatten).applied ++ rest := by
+  have h1 := (executed_in_order sc evs t hq).2
+  obtain ⟨pend, hp⟩ := wire_prefix sc evs
+  rw [h1, ← parser_refines_spec pc raws {} t.cur (Or.inr rfl) hsel hmap, ← hitems,
+    ← plainItems_eq_itemCmds, ← fwd_eq_plainItems .no evs hnd hnn, ← hp, seqApplied_append]
+  exact ⟨(seqApplied (seqApplied t.cur (dataOut (run sc initS evs).2)).1 pend).2,
+    by simp [List.append_assoc]⟩
+
 /-! Non-vacuity -/
 def exCfg : SCfg := { txnMode := false, resume := true, batchCount := 2, batchBytes := 1000 }
 def exSet (k : UInt8) (off : Int) : Ev :=
@@ -255,5 +332,38 @@ example : (seqApplied 0 (dataOut (run exCfg initS (exEvs ++ [.done])).2)).2 =
     [ { db := 1, name := [115,101,116], args := [[97],[118]] },
       { db := 1, name := [115,101,116], args := [[98],[118]] },
       { db := 1, name := [115,101,116], args := [[99],[118]] } ] := by decide +kernel
+
+/-! Non-vacuity of the end-to-end theorem: db 1 filtered, db 2 mapped to 5,
+    `flushall` blacklisted, keys starting with 'x' rejected -/
+def e2ePc : PCfg :=
+  { filterDb := fun d => d == 1,
+    filterCmd := fun c => c == [102,108,117,115,104,97,108,108],
+    filterCmdKey := fun _ a => match a with
+      | (120 :: _) :: _ => none
+      | _ => some a,
+    targetDb := -1, dbMap := [(2, 5)], startDbId := -1 }
+def e2eRaws : List Raw :=
+  [ { cmd := bSelect, args := [[50]], off := 23 },                       -- SELECT 2  (→ 5)
+    { cmd := [115,101,116], args := [[97],[49]], off := 50 },             -- set a 1
+    { cmd := bPing, args := [], off := 64 },
+    { cmd := bMulti, args := [], off := 79 },
+    { cmd := [115,101,116], args := [[120],[50]], off := 106 },           -- set x 2  (key rejected)
+    { cmd := [100,101,108], args := [[98]], off := 128 },                 -- del b
+    { cmd := bExec, args := [], off := 142 },
+    { cmd := bSelect, args := [[49]], off := 165 },                       -- SELECT 1  (filtered)
+    { cmd := [115,101,116], args := [[99],[51]], off := 192 },            -- set c 3  (bypassed)
+    { cmd := bSelect, args := [[48]], off := 215 },                       -- SELECT 0
+    { cmd := [102,108,117,115,104,97,108,108], args := [], off := 236 },  -- flushall (blacklisted)
+    { cmd := [115,101,116], args := [[100],[52]], off := 263 } ]          -- set d 4
+def e2eEvs : List Ev :=
+  (parseAll e2ePc {} e2eRaws).flatMap (fun i => [Ev.item i, Ev.batchTick])
+
+example : specStream e2ePc false 0 e2eRaws =
+    [ { db := 5, name := [115,101,116], args := [[97],[49]] },
+      { db := 5, name := [100,101,108], args := [[98]] },
+      { db := 0, name := [115,101,116], args := [[100],[52]] } ] := by decide +kernel
+example : itemsOf e2eEvs = parseAll e2ePc {} e2eRaws := by decide +kernel
+example : (applyLog {} (run exCfg initS (e2eEvs ++ [.done])).2.flatten).applied =
+    specStream e2ePc false 0 e2eRaws := by decide +kernel
 
 end GunYu.Props.C01
